@@ -248,4 +248,138 @@ theorem sortStable_sorted (hasym : ∀ a b, before a b = true → before b a = f
 end Stable
 
 end Paths
+/-! ## `to_parent` on the closed-form layout -/
+
+namespace Arena
+
+/-- the list `L` sits in the arena `a` at offset `b` -/
+def Emb (a : List GNode) (b : Nat) (L : List GNode) : Prop :=
+  ∀ k, k < L.length → get a (b + k) = get L k
+
+theorem emb_of_split {pre mid post : List GNode} {b : Nat} (hb : pre.length = b) :
+    Emb (pre ++ mid ++ post) b mid := fun _ hk => get_embed hb hk
+
+theorem Emb.head {a : List GNode} {b : Nat} {x : GNode} {X : List GNode} (h : Emb a b (x :: X)) :
+    get a b = x := by
+  have := h 0 (by simp)
+  simpa [get] using this
+
+theorem Emb.tail {a : List GNode} {b : Nat} {x : GNode} {X : List GNode} (h : Emb a b (x :: X)) :
+    Emb a (b + 1) X := by
+  intro k hk
+  have := h (k + 1) (by simp; omega)
+  rw [show b + 1 + k = b + (k + 1) by omega, this]
+  simp [get]
+
+theorem Emb.right {a : List GNode} {b : Nat} {X Y : List GNode} (h : Emb a b (X ++ Y)) :
+    Emb a (b + X.length) Y := by
+  intro k hk
+  have := h (X.length + k) (by simp; omega)
+  rw [Nat.add_assoc, this]
+  simp only [get, List.getD_eq_getElem?_getD]
+  rw [List.getElem?_append_right (by omega)]
+  simp
+
+theorem sizes_append : ∀ (xs ys : List BTree), sizes (xs ++ ys) = sizes xs + sizes ys
+  | [], ys => by simp [sizes]
+  | x :: xs, ys => by simp [sizes, sizes_append xs ys]; omega
+
+theorem length_le_sizes : ∀ (xs : List BTree), xs.length ≤ sizes xs
+  | [] => by simp
+  | x :: xs => by have := size_pos x; have := length_le_sizes xs; simp [sizes]; omega
+
+/-- the tail forest after the first tree is embedded too -/
+theorem Emb.forest_tail {a : List GNode} {b p : Nat} {n : Node} {lr : Option LineRange}
+    {cs ts : List BTree} (h : Emb a b (layoutForest b p (BTree.mk n lr cs :: ts))) :
+    Emb a (b + (1 + sizes cs)) (layoutForest (b + (1 + sizes cs)) b ts) := by
+  rw [layoutForest_cons] at h
+  have := h.tail.right
+  rw [length_layoutForest] at this
+  rw [show b + 1 + sizes cs = b + (1 + sizes cs) by omega] at this
+  exact this
+
+theorem Emb.forest_head {a : List GNode} {b p : Nat} {n : Node} {lr : Option LineRange}
+    {cs ts : List BTree} (h : Emb a b (layoutForest b p (BTree.mk n lr cs :: ts))) :
+    get a b = GNode.node b p (firstPtr (b + (1 + sizes cs)) ts) (firstPtr (b + 1) cs) n := by
+  rw [layoutForest_cons] at h
+  exact h.head
+
+/-- the root of the tree after `pre` in an embedded forest -/
+theorem get_forest_root : ∀ (pre : List BTree) (b p : Nat) (n : Node) (lr : Option LineRange)
+    (cs rest : List BTree) (a : List GNode),
+    Emb a b (layoutForest b p (pre ++ BTree.mk n lr cs :: rest)) →
+    ∃ pr nx ch, get a (b + sizes pre) = GNode.node (b + sizes pre) pr nx ch n
+  | [], b, p, n, lr, cs, rest, a, h => by
+    simp only [List.nil_append] at h
+    exact ⟨_, _, _, by simpa [sizes] using h.forest_head⟩
+  | BTree.mk n0 lr0 cs0 :: pre, b, p, n, lr, cs, rest, a, h => by
+    simp only [List.cons_append] at h
+    obtain ⟨pr, nx, ch, hg⟩ := get_forest_root pre _ _ n lr cs rest a h.forest_tail
+    refine ⟨pr, nx, ch, ?_⟩
+    simp only [sizes, size]
+    rw [show b + (1 + sizes cs0 + sizes pre) = b + (1 + sizes cs0) + sizes pre by omega]
+    exact hg
+
+/-- `to_parent` from the root after `pre` walks back over the `pre.length` previous siblings -/
+theorem toParent_forest_walk : ∀ (pre : List BTree) (b p : Nat) (t : BTree) (rest : List BTree)
+    (a : List GNode) (fuel : Nat),
+    Emb a b (layoutForest b p (pre ++ t :: rest)) →
+    toParent a (fuel + pre.length) (b + sizes pre) = toParent a fuel b
+  | [], b, p, t, rest, a, fuel, _ => by simp [sizes]
+  | BTree.mk n0 lr0 cs0 :: pre, b, p, t, rest, a, fuel, h => by
+    simp only [List.cons_append] at h
+    have ih := toParent_forest_walk pre _ _ t rest a (fuel + 1) h.forest_tail
+    simp only [sizes, size, List.length_cons]
+    rw [show fuel + (pre.length + 1) = fuel + 1 + pre.length by omega,
+      show b + (1 + sizes cs0 + sizes pre) = b + (1 + sizes cs0) + sizes pre by omega, ih]
+    -- one step from the first root of the tail forest back to `b`
+    have hb := h.forest_head
+    have ht := h.forest_tail
+    cases hts : pre ++ t :: rest with
+    | nil => simp at hts
+    | cons t1 ts1 =>
+      cases t1 with
+      | mk n1 lr1 cs1 =>
+        rw [hts] at ht
+        have h1 := ht.forest_head
+        rw [toParent, h1]
+        simp only [GNode.prev?, hb, GNode.child?]
+        have hne : firstPtr (b + 1) cs0 ≠ some (b + (1 + sizes cs0)) := by
+          cases cs0 with
+          | nil => simp [firstPtr]
+          | cons c cs0' =>
+            have := size_pos c
+            simp [firstPtr, sizes]; omega
+        rw [if_neg hne]
+
+theorem toParent_forest_first {a : List GNode} {b p : Nat} {t : BTree} {ts : List BTree} (fuel : Nat)
+    (h : Emb a b (layoutForest b p (t :: ts))) (hp : (get a p).child? = some b) :
+    toParent a (fuel + 1) b = some p := by
+  cases t with
+  | mk n lr cs =>
+    rw [toParent, h.forest_head]
+    simp [GNode.prev?, hp]
+
+end Arena
+
+/-- a top-level block of a note: its node and its parent -/
+theorem Seg.top_block {a pre0 post : List GNode} {s : Seg} (ha : a = pre0 ++ s.nodes ++ post)
+    (hb : pre0.length = s.base) {pre rest cs : List BTree} {n : Node} {lr : Option LineRange}
+    (hf : s.forest = pre ++ BTree.mk n lr cs :: rest) :
+    (∃ pr nx ch, Arena.get a (s.base + 1 + Arena.sizes pre) = GNode.node (s.base + 1 + Arena.sizes pre) pr nx ch n)
+    ∧ (∃ ch, Arena.get a s.base = GNode.document s.base ch s.key)
+    ∧ ∀ fuel, pre.length + 1 ≤ fuel → Arena.toParent a fuel (s.base + 1 + Arena.sizes pre) = some s.base := by
+  have hE : Arena.Emb a s.base s.nodes := by rw [ha]; exact Arena.emb_of_split hb
+  simp only [Seg.nodes, Arena.layoutDoc_eq, hf] at hE
+  have hdoc := hE.head
+  have hF := hE.tail
+  refine ⟨Arena.get_forest_root pre _ _ n lr cs rest a hF, ⟨_, hdoc⟩, ?_⟩
+  intro fuel hfuel
+  obtain ⟨f, rfl⟩ : ∃ f, fuel = f + 1 + pre.length := ⟨fuel - 1 - pre.length, by omega⟩
+  rw [Arena.toParent_forest_walk pre _ _ _ rest a (f + 1) hF]
+  cases hpre : pre ++ BTree.mk n lr cs :: rest with
+  | nil => simp at hpre
+  | cons t1 ts1 =>
+    rw [hpre] at hF hdoc
+    exact Arena.toParent_forest_first f hF (by simp [hdoc, GNode.child?, Arena.firstPtr])
 end Iwe
